@@ -229,12 +229,16 @@ impl Process {
     }
 
     pub fn set_state(&self, state: TaskState) {
+        #[cfg(feature = "verif")]
+        let verif_old = self.state();
         if state.is_completed() {
             self.set_end_time(utils::time::time_millis());
         } else if state.is_running() {
             self.set_start_time(utils::time::time_millis());
         }
         *self.state.write().unwrap() = state;
+        #[cfg(feature = "verif")]
+        crate::verif::on_proc_state(self, &verif_old, "set_state");
     }
 
     pub(crate) fn set_start_time(&self, time: i64) {
@@ -365,6 +369,8 @@ impl Process {
             task.set_prev(Some(prev.id.clone()));
         }
         self.push_task(task.clone());
+        #[cfg(feature = "verif")]
+        crate::verif::on_task_created(&task, "create");
         task
     }
 
